@@ -188,6 +188,23 @@ def impl_range(spec, k=None):
     return res, si
 
 
+def range_holds(spec, k, ir, isi):
+    """C17 on one accepted construction (`ir`) and its re-indexing to k (`isi`)"""
+    st, en, sz, ba, ix = ir["ok"]
+    good = 0 <= st < en and en - st == sz
+    if "base" in spec and "size" in spec:
+        good = good and st == spec["base"] + spec.get("idx", 0) * spec["size"]
+    if isi is not None:
+        # "based" is what the specification says, not what the object ended up carrying
+        sb = spec.get("base")
+        if sb is not None:
+            good = good and ba == sb and "ok" in isi and isi["ok"][0] == sb + k * sz and \
+                isi["ok"][1] == sb + (k + 1) * sz and isi["ok"][2] == sz
+        else:
+            good = good and ba is None and "err" in isi
+    return good
+
+
 class C17Runner:
     def explore(self, pid, tier, seed, rep, search_mode=False):
         import lean
@@ -226,15 +243,7 @@ class C17Runner:
                 ir, isi = impl_range(spec, k)
                 # the property on the implementation's result
                 if "ok" in ir:
-                    st, en, sz, ba, ix = ir["ok"]
-                    good = 0 <= st < en and en - st == sz
-                    if "base" in spec and "size" in spec:
-                        good = good and st == spec["base"] + spec.get("idx", 0) * spec["size"]
-                    if isi is not None:
-                        if ba is not None:
-                            good = good and "ok" in isi and isi["ok"][0] == ba + k * sz and isi["ok"][1] == ba + (k + 1) * sz and isi["ok"][2] == sz
-                        else:
-                            good = good and "err" in isi
+                    good = range_holds(spec, k, ir, isi)
                     stats["accepted"] += 1
                     if not good and not rep.violations:
                         f = {"claim": "range-ill-formed", "site": json.dumps(spec), "detail": f"{ir} set_idx({k}) -> {isi}"}
@@ -263,8 +272,8 @@ class C17Runner:
 
     def replay(self, pid, payload, rep):
         print(impl_range(payload["spec"], payload.get("k")))
-        ir, _ = impl_range(payload["spec"], payload.get("k"))
-        if "ok" in ir and not (0 <= ir["ok"][0] < ir["ok"][1] and ir["ok"][1] - ir["ok"][0] == ir["ok"][2]):
+        ir, isi = impl_range(payload["spec"], payload.get("k"))
+        if "ok" in ir and not range_holds(payload["spec"], payload.get("k"), ir, isi):
             rep.finding(payload["finding"], payload)
         return rep.exit_code()
 
@@ -273,10 +282,14 @@ class C17Runner:
 
 def impl_select(kind, dims, sel, arg, nm="r"):
     g = Graph()
+    # other inhabitants of the graph that a selection by name must not pick up
+    g.add_nodes_as_tree("q", [1, 2], "router", "link", connect=True)
+    g.add_nodes_as_array("zz", (2, 2), "router", edge_type="link", connect=False)
     if kind == "tree":
         g.add_nodes_as_tree(nm, dims, "router", "link", connect=True)
     else:
         g.add_nodes_as_array(nm, tuple(dims), "router", edge_type="link", connect=False)
+    g.add_nodes_as_tree("w", [2], "router", "link", connect=True)
     try:
         if sel == "range":
             return {"nodes": g.get_nodes_from_range(nm, [tuple(p) for p in arg])}
